@@ -87,7 +87,12 @@ static void op_alloc(void) {
   // which heap serves the entry points without a heap argument
   int dh = default_is;
   unsigned v = (unsigned)(rnd() % 24);
-  size_t a = pick_align(), o = (rnd() % 3 == 0) ? ((size_t)(rnd() % 512)) * 8 : 0; if (a > MI_BLOCK_ALIGNMENT_MAX) o = 0; if (o > n) o = 0;
+  size_t a = pick_align(), o = (rnd() % 3 == 0) ? ((size_t)(rnd() % 512)) * 8 : 0;
+#ifdef NDEBUG
+  if (o && rnd() % 2) o += (size_t)(rnd() % 8);     // offsets that are not multiples of the word size (debug builds reject the resulting pointers)
+#endif
+  if (a > MI_BLOCK_ALIGNMENT_MAX) o = 0;
+  if (o > n) o = 0;
   if (a >= ((size_t)1 << 23) && n > (40u << 20)) n = 1 + n % 100000;
   void* p = NULL;
   switch (v) {
@@ -233,8 +238,9 @@ static void op_owner(void) {
     if (b->heap == -2) continue;      // left behind by an exited thread: owned by whichever heap adopted it
     if (mi_option_get(mi_option_target_segments_per_thread) > 0) continue;   // see known finding: forced abandonment migrates pages to the reclaiming heap
     if (c != (hi == b->heap)) FAIL("c10_contains_block", "block %p lives in heap %d; mi_heap_contains_block(heap %d) = %d", (void*)b->p, b->heap, hi, (int)c);
+    if (((uintptr_t)b->p & (sizeof(void*) - 1)) != 0) continue;    // mi_heap_check_owned only recognises word-aligned pointers (documented)
     if (o != (hi == b->heap)) FAIL("c10_check_owned", "block %p lives in heap %d; mi_heap_check_owned(heap %d) = %d", (void*)b->p, b->heap, hi, (int)o); }
-  if (!mi_check_owned(b->p)) { if (b->heap == default_is) FAIL("c10_check_owned_default", "mi_check_owned(%p) false", (void*)b->p); }
+  if (!mi_check_owned(b->p) && ((uintptr_t)b->p & (sizeof(void*) - 1)) == 0) { if (b->heap == default_is) FAIL("c10_check_owned_default", "mi_check_owned(%p) false", (void*)b->p); }
   int x; if (mi_heap_check_owned(backing, &x)) FAIL("c10_check_owned", "stack address owned");
 }
 static void op_heap(void) {
